@@ -215,7 +215,7 @@ impl<'l> StringTokenizer<'l> {
                     '\\' => working.push('\\' as u8),
                     '\'' => working.push('\'' as u8),
                     '"' => working.push('"' as u8),
-                    '0'..='9' => {
+                    '0'..='3' => {
                         let mut oct: String = [escaped].into_iter().collect();
                         for _ in 0..2 {
                             match self.scanner.next() {
@@ -238,8 +238,8 @@ impl<'l> StringTokenizer<'l> {
                         working.push(val)
                     }
                     other => {
-                        other.encode_utf8(&mut buf);
-                        working.extend_from_slice(&buf[..other.len_utf8()]);
+                        return Err(SyntaxError::from_location(self.scanner.location())
+                            .with_message(format!("Invalid escape sequence '\\{}'", other)))
                     }
                 }
             } else {
@@ -291,7 +291,7 @@ impl<'l> StringTokenizer<'l> {
                     '\\' => working.push('\\'),
                     '\'' => working.push('\''),
                     '"' => working.push('"'),
-                    '0'..='9' => {
+                    '0'..='3' => {
                         let mut oct: String = [escaped].into_iter().collect();
                         for _ in 0..2 {
                             match self.scanner.next() {
@@ -319,7 +319,10 @@ impl<'l> StringTokenizer<'l> {
                             }
                         })
                     }
-                    other => working.push(other),
+                    other => {
+                        return Err(SyntaxError::from_location(self.scanner.location())
+                            .with_message(format!("Invalid escape sequence '\\{}'", other)))
+                    }
                 }
             } else if curr == '{' && is_format {
                 let escaped = if let Some(curr) = self.scanner.next() {
